@@ -85,11 +85,11 @@ EOF_C = [
      '__CPROVER_old(self->state_) == csv_parse_state_between_values ==> (!vx_default_arm && ((self->ignore_empty_values_ && __CPROVER_old(vx_buflen) == 0) ? (vx_before_values == 0 && self->state_ == csv_parse_state_before_last_unquoted_field_tail) : (vx_before_values == 1 && (*ec_p == 0 ==> self->state_ == csv_parse_state_before_last_quoted_field))))'),
     ('ensures', '[C05] at the end of the input the record that has been begun is always ended: no state goes straight to end_record without the field having been counted (F53: a record whose only value was an ignored empty quoted field was never ended, json_decoder failed an internal assertion)',
      '(__CPROVER_old(self->state_) == csv_parse_state_between_values || __CPROVER_old(self->state_) == csv_parse_state_escaped_value) ==> (self->state_ == csv_parse_state_end_record ==> vx_column_index > __CPROVER_old(vx_column_index))'),
-    ('ensures', '[C18] the input ends right after the closing quote of the last field: the field is delivered and the record ends', '__CPROVER_old(self->state_) == csv_parse_state_before_last_quoted_field ==> (vx_end_quoted == 1 && self->state_ == csv_parse_state_end_record && *ec_p == 0)'),
+    ('ensures', '[C05][C18] the input ends right after the closing quote of the last field: the field is delivered and goes on to the tail state, which closes a list of sub-fields, counts the field and ends the record (F58: the record was ended at once, a list of sub-fields stayed open - "1;\\"x\\"" at the end of the input failed an internal assertion of json_decoder)', '__CPROVER_old(self->state_) == csv_parse_state_before_last_quoted_field ==> (vx_end_quoted == 1 && self->state_ == csv_parse_state_before_last_unquoted_field_tail && vx_column_index == __CPROVER_old(vx_column_index) && *ec_p == 0)'),
 ]
 SPECS.append(FuncSpec('eof_quoted', P, SIG, count=1, csig='void eof_quoted(struct csv_parser* self, int* ec_p)', contract=EOF_C, aliases=dict(AL, column_index_='vx_column_index'),
              rules=RULES[:2] + [(r'end_quoted_string_value\(local_visitor, ec\);', 'vx_end_quoted++;', 1), (r'err_handler_\(csv_errc_unexpected_eof, \*this\);', 'vx_err_handler_calls++;', 0, 1), (r'buffer_\.empty\(\)', '(vx_buflen == 0)', 1, 3), (r'before_value\(local_visitor, ec\);', 'vx_before_value(ec_p);', 1, 2), (r'stack_\.back\(\) == csv_mode::subfields', 'vx_mode_subfields', 0, 3)],
-             slice_from=r'case csv_parse_state::before_last_quoted_field:(?=\s*end_quoted_string_value\(local_visitor, ec\);\s*\+\+column_index_;)', slice_to=r'case csv_parse_state::end_record:\s*if \(column_index_ > 0\)',
+             slice_from=r'case csv_parse_state::before_last_quoted_field:(?=\s*end_quoted_string_value\(local_visitor, ec\);\s*(?:\+\+column_index_;\s*)?state_ = csv_parse_state::(?:end_record|before_last_unquoted_field_tail);)', slice_to=r'case csv_parse_state::end_record:\s*if \(column_index_ > 0\)',
              prologue='switch (state_) {', epilogue='default: vx_default_arm = true; state_ = csv_parse_state_end_record; break; }'))
 
 # ---- F51: the member name of a value (before_value, data rows) and the column bookkeeping of m_columns for an ignored empty value (end_unquoted_string_value / end_quoted_string_value)
